@@ -141,6 +141,33 @@ class _RecordedI2P(object):
 
 
 _handlers = {}
+I2P_DEFAULT_PORT = 7777
+# third-party connection-hint plugins, by what their hint_to_endpoint does with every hint
+PLUGIN_KINDS = ("plug-ok", "plug-invalid", "plug-keyerror", "plug-deferred-fail")
+
+
+class _PluginEndpoint(object):
+    def __init__(self, host):
+        self.host = host
+
+
+class _Plugin(object):
+    def __init__(self, kind):
+        self.kind = kind
+
+    def hint_to_endpoint(self, hint, reactor, update_status):
+        from foolscap.ipb import InvalidHintError
+        if self.kind == "plug-ok":
+            return _PluginEndpoint(hint), hint
+        if self.kind == "plug-invalid":
+            raise InvalidHintError("plugin says no")
+        if self.kind == "plug-deferred-fail":
+            from twisted.internet import defer
+            return defer.fail(KeyError("late " + hint))
+        raise KeyError(hint)
+
+    def describe(self):
+        return self.kind
 
 
 def handler(kind):
@@ -158,12 +185,17 @@ def handler(kind):
             # hand back "no particular socks endpoint" at once
             h._maybe_connect = lambda reactor, update_status: defer.succeed(None)
             _handlers[kind] = h
-        elif kind == "i2p":
+        elif kind in ("i2p", "i2p+port"):
             sam = _SamEndpoint()
             directlyProvides(sam, IStreamClientEndpoint)
             # stop at the endpoint constructor: the real .new() opens a SAM session at once
             i2p.SAMI2PStreamClientEndpoint = _RecordedI2P
-            _handlers[kind] = i2p.sam_endpoint(sam)
+            # "i2p+port": a handler created with a default port (i2p.default(reactor, port=N) / sam_endpoint(ep, port=N))
+            _handlers[kind] = i2p.sam_endpoint(sam) if kind == "i2p" else i2p.sam_endpoint(sam, port=I2P_DEFAULT_PORT)
+        elif kind in PLUGIN_KINDS:
+            from foolscap.ipb import IConnectionHintHandler
+            _handlers[kind] = _Plugin(kind)
+            directlyProvides(_handlers[kind], IConnectionHintHandler)
         else:
             raise KeyError(kind)
     return _handlers[kind]
@@ -180,6 +212,8 @@ def describe_endpoint(ep, host):
         return ["tor", ep.host, ep.port, host]
     if cn == "_RecordedI2P":
         return ["i2p", ep._host, ep._port, host]
+    if cn == "_PluginEndpoint":
+        return ["tcp", ep.host, 1, host]
     return ["?" + cn, None, None, host]
 
 
@@ -344,6 +378,13 @@ def probe(payload):
         f("tcp:a:1")
         sys.stdout.write("@@START@@" + json.dumps(dict(n=len(s), length=len(s))) + "\n")
         sys.stdout.flush()
+        if payload.get("cpu_limit"):
+            # the verdict is about CPU time, not wall-clock time (the machine may be heavily loaded): the kernel ends
+            # this process (SIGXCPU) once the call has used cpu_limit seconds of CPU
+            import resource
+            soft = int(time.process_time() + payload["cpu_limit"]) + 2
+            hard = resource.getrlimit(resource.RLIMIT_CPU)[1]
+            resource.setrlimit(resource.RLIMIT_CPU, (soft if hard < 0 else min(soft, hard), hard))
         t0 = time.process_time()
         f(s)
         sys.stdout.write("@@POINT@@" + json.dumps(dict(n=len(s), length=len(s), t=time.process_time() - t0)) + "\n")
@@ -415,6 +456,14 @@ def identity_verdict(a, b):
         return type(e).__name__
 
 
+def lt_verdict(a, b):
+    """a < b -> True / False / name of the exception"""
+    try:
+        return bool(a < b)
+    except Exception as e:  # noqa
+        return type(e).__name__
+
+
 # ---------------------------------------------------------------------------- a real Tub, histories of getReference
 
 class _RecordingEndpoint(object):
@@ -430,7 +479,7 @@ class _RecordingEndpoint(object):
         return defer.Deferred()
 
 
-def tub_history(events):
+def tub_history(events, plugins=None):
     """events: ["getref", furl] | ["advance", seconds].  One real Tub (default tcp handler, endpoints recorded,
     virtual clock, nobody ever answers).  -> one observation per event:
        dict(fired={index of getref event: exception class name or 'result'}, connects=[(host, port)] started by this event)"""
@@ -446,6 +495,8 @@ def tub_history(events):
     try:
         with E.quiet():
             tub = E.Tub(certData=E.pem(0))
+            for name, kind in sorted((plugins or {}).items()):
+                tub.addConnectionHintHandler(name, handler(kind))
             tub.startService()
             E.turn()
             for i, e in enumerate(events):
